@@ -4,6 +4,10 @@
 (* record "run":  n, b, mdi, thr, tol, vals (per-cut change scores of the *)
 (*    cuts (t-b, t, t+b), recorded from an independent scorer; entry t+1  *)
 (*    for position t, 0 outside [b, n-b]), scores (transform_scores), cps *)
+(*    rk / rkthr: dense ranks of the detector's own exact scores and its  *)
+(*    threshold_ (order and equality preserved exactly): the runs of      *)
+(*    exceedances and their peaks are judged on these, without tolerance; *)
+(*    the VALUE of the scores is judged against vals within tol.          *)
 (* record "reversal": n, tol, a (scores on X), r (scores on reversed X)   *)
 (* All numbers are integers (quantised, DESIGN section 3).                *)
 (***************************************************************************)
@@ -15,13 +19,12 @@ VARIABLES tid, verdict
 RunVerdict(c) ==
     LET sc == [t \in 0..(c.n - 1) |-> c.scores[t + 1]]
         vl == [t \in 0..(c.n - 1) |-> IF t >= c.b /\ t <= c.n - c.b THEN c.vals[t + 1] ELSE 0]
-        ex == [t \in 0..(c.n - 1) |-> sc[t] > c.thr]
-        marginal == \E t \in 0..(c.n - 1) : Abs(sc[t] - c.thr) <= c.tol
+        rk == [t \in 0..(c.n - 1) |-> c.rk[t + 1]]
+        ex == [t \in 0..(c.n - 1) |-> rk[t] > c.rkthr]      \* "exceeds" is strict
     IN IF \E t \in 0..(c.n - 1) : Abs(sc[t] - vl[t]) > c.tol THEN "fail:score_is_not_the_two_sided_window_score"
        ELSE IF \E k \in 1..Len(c.cps) : c.cps[k] < c.b \/ c.cps[k] > c.n - c.b THEN "fail:changepoint_outside_bandwidth_range"
        ELSE IF ~IsStrictlyIncreasing(c.cps) THEN "fail:not_strictly_increasing"
-       ELSE IF marginal THEN "skip:score_within_rounding_of_threshold"
-       ELSE IF ~PeaksAdmitN(sc, ex, c.mdi, c.n, Range(c.cps), c.tol) THEN "fail:not_peak_of_each_run"
+       ELSE IF ~PeaksAdmitN(rk, ex, c.mdi, c.n, Range(c.cps), 0) THEN "fail:not_peak_of_each_run"
        ELSE "ok"
 
 ReversalVerdict(c) ==
